@@ -38,6 +38,12 @@ def handleE (line : String) : Except String String := do
   let runs ← natF j "runs"
   let ds ← arrF j "distinct"
   let outs ← mapM' (fun d => do return (← intF d "exit", ← strF d "stdout", ← natF d "n")) ds
+  if mode == "ir" then
+    -- digests of the normalised IR computed in fresh processes
+    match outs with
+    | [] => throw "no runs"
+    | [(exit, _, _)] => return (if exit == 0 then "ok ir deterministic constrained" else "ok ir deterministic nonzero-exit modelonly")
+    | _ => return s!"spec class=ir-differs expected=1-distinct-normalised-IR-in-{runs}-processes impl={outs.length}-distinct-digests:{outs.map (fun o => o.2.2)}"
   match outs with
   | [] => throw "no runs"
   | [(exit, stdout, _)] =>
